@@ -650,6 +650,19 @@ class Interp:
                 target = self.resolve_method(fv[1], fv[2], len(args) + len(kw), fr)
                 if target is not None:
                     return self.inline(target, fv[1], args, kw, fr, n)
+        if isinstance(f, ast.Name) and f.id in ('filter', 'takewhile') and f.id not in fr.env and len(args) == 2 and args[0][0] in ('lambda', 'closure') and not kw:
+            # filter(f, X) = [x for x in X if f(x)];  takewhile(f, X) = the prefix of X before the first x with not f(x)
+            b = self.new_binder(args[1], 'x')
+            if args[0][0] == 'lambda':
+                node, env0, lfunc, lcls = self.lambdas[args[0][1]]
+                env2 = dict(env0)
+                env2[node.args.args[0].arg] = b
+                fr2 = Frame(lfunc, env2)
+                fr2.cls = lcls
+                cond = as_cond(self.ex(node.body, fr2))
+                if f.id == 'takewhile':
+                    cond = CALL(S('__until_break__'), [cond])
+                return ('comp', ((b, cond),), b)
         if isinstance(f, ast.Name) and f.id == 'getattr' and f.id not in fr.env and len(args) in (2, 3) and args[1][0] == 'const' and isinstance(args[1][1], str):
             if len(args) == 3 and args[0][0] in ('bvar', 'idx') and A(args[0], args[1][1]) not in self.heap:
                 # an element of a collection may lack the attribute: the default is a value of the expression
